@@ -308,7 +308,7 @@ def accepts(ts, d, strict):  # noqa: C901, PLR0911, PLR0912
             return REJECT
         v = _all([accepts(ts[1], x, strict) for x in items])
         if v != REJECT and h in ("Set", "FrozenSet", "AbstractSet", "MutableSet"):
-            if unwrap(ts[1])[0] in ("Any", "object") and not all(_hashable(x) for x in items):
+            if passes_any(ts[1]) and not all(_hashable(x) or accepts_elsewhere(ts[1], x, strict) for x in items):
                 return REJECT    # an unhashable element cannot be loaded "into the origin"
             if any(type(x) is Decimal and x.is_snan() for x in items):
                 return UNSPEC    # a signaling NaN passes the Decimal loader but no set can hold it
@@ -435,6 +435,24 @@ def matches(ts, d, strict, result):  # noqa: C901, PLR0911, PLR0912
     if h in _STRICT_ORIGINS and strict and h in ("Decimal",) and type(d) is Decimal:
         return result is d or same(result, d)
     return same(result, val)
+
+
+def passes_any(ts):
+    """does a loader of this type hand some data through unchanged (Any / object, also as a case of Optional / Union)?"""
+    ts = unwrap(ts)
+    h = ts[0]
+    if h in ("Any", "object"):
+        return True
+    if h == "Optional":
+        return passes_any(ts[1])
+    if h == "Union":
+        return any(passes_any(c) for c in ts[1:])
+    return False
+
+
+def accepts_elsewhere(ts, x, strict):
+    """an unhashable element of a set is fine when a case OTHER than the pass-through one converts it (none does in this grammar)"""
+    return False
 
 
 def has_overlap(ts, d, strict):  # noqa: C901, PLR0911
